@@ -27,7 +27,10 @@ def parked(rng, ident, hook, nth, how):
     else:
         s.append("close/nowait"); s.append("await/c1")
     s += ["sample/atreturn", "release/" + hook, "settle", "sleep/3", "sample/end"]
-    return scn.line("scn", ident, s, extra="nt=1 family=%s" % KNOWN_FAMILY)
+    # the first three FrameRead points (length, element count, message type... up to the seqno) come BEFORE the call is
+    # looked up: a reply parked there must find the call gone once it has returned (no known finding covers that)
+    fam = KNOWN_FAMILY if (hook != "FrameRead" or nth >= 4) else "reply-parked-before-lookup"
+    return scn.line("scn", ident, s, extra="nt=1 family=%s hookpos=%s-%d-%s" % (fam, hook, nth, how))
 
 
 def late(rng, ident):
